@@ -8,7 +8,10 @@ import (
 	"os"
 	"sync"
 	"sync/atomic"
+	"syscall"
 	"time"
+
+	erpc "github.com/henrylee2cn/erpc/v6"
 )
 
 // Addr is a named in-memory address.
@@ -352,6 +355,34 @@ func (l *MemListener) Inject(c net.Conn) {
 	case l.ch <- c:
 	case <-l.done:
 	}
+}
+
+// NoLinger wraps a TCP listener: accepted connections are closed with a reset instead of the orderly shutdown, so that
+// they leave no TIME_WAIT entry behind (drivers that open tens of thousands of loopback connections would otherwise
+// exhaust the local ports of the machine).
+type NoLinger struct{ net.Listener }
+
+// Accept implements net.Listener.
+func (l NoLinger) Accept() (net.Conn, error) {
+	c, err := l.Listener.Accept()
+	if tc, ok := c.(*net.TCPConn); ok {
+		tc.SetLinger(0)
+	}
+	return c, err
+}
+
+// NoLingerDial is a dial hook that does the same on the dialling side (also for re-dialled connections).
+type NoLingerDial struct{}
+
+// Name implements erpc.Plugin.
+func (NoLingerDial) Name() string { return "verif-no-linger" }
+
+// PostDial implements erpc.PostDialPlugin.
+func (NoLingerDial) PostDial(sess erpc.PreSession, isRedial bool) *erpc.Status {
+	sess.ControlFD(func(fd uintptr) {
+		syscall.SetsockoptLinger(int(fd), syscall.SOL_SOCKET, syscall.SO_LINGER, &syscall.Linger{Onoff: 1, Linger: 0})
+	})
+	return nil
 }
 
 // LoopListen listens on a loopback address that belongs to this process alone: 127.x.y.z derived from the
